@@ -80,7 +80,6 @@ def _run_config(args):
                     "abandoned": bool(se and (set(se["open"]) - set(se["idle"]))),
                     "cancel_in_shield": _cancel_in_shield(ev), "cancel_in_call": _cancel_in_call(ev),
                     "cancel_in_sleep": _cancel_in_sleep(ev),
-                    "in_begin_block": any(b in prog for b in ("engine_begin", "with_begin", "s_begin", "sm_begin")),
                     "gc_return": any(e["e"] == "pool" and e["ev"] == "detach" for e in ev),
                     "terminated": any(e["e"] == "pool" and e["ev"] == "invalidate" for e in ev)}
             out.append((info, json.dumps({"id": tid, "prog": list(prog), "pool": pool, "ev": normalise(ev)})))
@@ -100,16 +99,24 @@ def _cancel_in_shield(ev):
 
 
 def _cancel_in_sleep(ev):
-    """the cancellation arrived while the task was suspended in `await asyncio.sleep(0)` - the connection stays alive"""
+    """the cancellation arrived while the task was suspended in `await asyncio.sleep(0)` - the connection stays alive.
+    Returns "" (no), "plain", or "begin" when the sleep is inside a begin-block whose transaction must then be rolled back."""
     op = None
+    stack = []
     for e in ev:
         if e["e"] == "opstart":
             op = e["op"]
         elif e["e"] == "opend":
+            if e["op"] == "exit":
+                stack.pop()
+            elif e["op"] in ("with_connect", "engine_begin", "with_begin", "with_nested", "with_session", "sm_begin", "s_begin"):
+                stack.append(e["op"])
             op = None
         elif e["e"] == "cancel" and e["t"] == "main":
-            return op == "sleep"
-    return False
+            if op != "sleep":
+                return ""
+            return "begin" if any(b in ("engine_begin", "with_begin", "s_begin", "sm_begin") for b in stack) else "plain"
+    return ""
 
 
 def _cancel_in_call(ev):
@@ -187,7 +194,7 @@ def clause_a(chk, rng):
     from checks.asynccancel_sync import AsyncConnDriver
     out = {"graphs": []}
     steps_total = walks_total = 0
-    plans = [("plain", dict(MaxH=3, MaxRows=2, MaxDepth=6, Ctx=False) if chk.quick else dict(MaxH=4, MaxRows=2, MaxDepth=8, Ctx=False)),
+    plans = [("plain", dict(MaxH=3, MaxRows=2, MaxDepth=6, Ctx=False) if chk.quick else dict(MaxH=4, MaxRows=2, MaxDepth=7, Ctx=False)),
              ("ctx", dict(MaxH=2, MaxRows=2, MaxDepth=6, Ctx=True) if chk.quick else dict(MaxH=3, MaxRows=2, MaxDepth=7, Ctx=True))]
     for name, consts in plans:
         cfgt = tlc.cfg(constants=consts, init="InitEmit", view="View", action_constraints=["Emit"], constraints=["Depth"])
@@ -293,6 +300,9 @@ def main(chk):
         configs += [(p, "empty", "timeout", POST) for p in rng.sample(only5, 150)]
     if "b" not in parts:
         configs = configs[:40]
+    stride = int(os.environ.get("VERIF_C29_STRIDE", "1"))      # developer knob (mutant runs): every n-th configuration only
+    if stride > 1:
+        configs = configs[::stride]
     t0 = time.time()
     traces, stats = run_programs(chk, configs, "b")
     t_runs = time.time() - t0
@@ -339,7 +349,7 @@ def main(chk):
             "cancel_in_driver_call": sum(1 for i, _ in traces if i["cancel_in_call"]),
             "cancel_in_commit_call": sum(1 for i, _ in traces if i["cancel_in_call"] == "commit"),
             "cancel_in_non_database_await": sum(1 for i, _ in traces if i["cancel_in_sleep"]),
-            "cancel_in_non_database_await_inside_begin_block": sum(1 for i, _ in traces if i["cancel_in_sleep"] and i["in_begin_block"]),
+            "cancel_in_non_database_await_inside_begin_block": sum(1 for i, _ in traces if i["cancel_in_sleep"] == "begin"),
             "terminated_after_cancel": sum(1 for i, _ in traces if i["terminated"]),
             "returned_by_finalizer": sum(1 for i, _ in traces if i["gc_return"]),
             "abandoned_while_being_created": sum(1 for i, _ in traces if i["abandoned"]),
@@ -348,7 +358,7 @@ def main(chk):
     for k in ("cancel_while_shielded_close_runs", "cancel_in_driver_call", "cancel_in_commit_call", "terminated_after_cancel",
               "returned_by_finalizer", "timeouts", "effect_before_suspension", "cancel_in_non_database_await",
               "cancel_in_non_database_await_inside_begin_block"):
-        if not cats[k] and "b" in parts:
+        if not cats[k] and "b" in parts and stride == 1:
             chk.machinery("vacuous: no trace with %s" % k)
     # 3. clause (a)
     t0 = time.time()
@@ -361,7 +371,7 @@ def main(chk):
     nontriv = sum(1 for i, _ in traces if i["k"] is not None and (i["cancel_in_call"] or i["cancel_in_shield"] or i["cancel_in_sleep"]))
     pick = [t for t in traces if t[0]["k"] is not None and t[0]["cancel_in_shield"]][:1] + \
            [t for t in traces if t[0]["cancel_in_call"] == "commit"][:1] + \
-           [t for t in traces if t[0]["cancel_in_sleep"] and t[0]["in_begin_block"]][:1]
+           [t for t in traces if t[0]["cancel_in_sleep"] == "begin"][:1]
     samples = [{"trace": i["id"], "events": ["%s:%s" % (e["e"], e["a"]) for e in json.loads(line)["ev"] if e["e"] not in ("call", "ret")]}
                for i, line in pick]
     samples.append({"conntxn_walk_through_AsyncConnection": ca.get("sample")})
@@ -374,7 +384,7 @@ def main(chk):
              runs=stats["runs"], traces_rejected=len(rej), trace_states=tstates, situation_counts=cats,
              legacy_model_violates=legacy_model, clause_a=ca["graphs"], evaluations=stats["runs"] + ca["steps"],
              distinct_nontrivial=nontriv, samples=samples, wall_runs_s=round(t_runs, 1), wall_trace_tlc_s=round(t_tlc, 1),
-             wall_clause_a_s=round(t_a, 1), exhaustive=True, partial=("a" not in parts or "b" not in parts),
+             wall_clause_a_s=round(t_a, 1), exhaustive=True, partial=("a" not in parts or "b" not in parts or stride > 1),
              rule="one trace per (program of the grammar, pool state, cancel|timeout, effect-before/after-suspension, suspension k); "
                   "non-trivial = the cancellation was delivered while a driver call on the program's connection was in flight, while "
                   "a shielded close task was running or while the task awaited something else with the connection checked out; clause (a): every edge of the ConnTxn graphs replayed through AsyncConnection, "
